@@ -26,7 +26,7 @@ atexit.register(lambda: shutil.rmtree(RUN_TMP, ignore_errors=True))
 
 
 def sh(cmd, **kw):
-    return subprocess.run(cmd, stdout=subprocess.PIPE, stderr=subprocess.PIPE, text=True, **kw)
+    return subprocess.run(cmd, stdout=subprocess.PIPE, stderr=subprocess.PIPE, text=True, errors="replace", **kw)
 
 
 class Lock:
@@ -281,7 +281,7 @@ def _run_chunk(cmd, lines, env, timeout):
         guard += 1
         data = "\n".join(lines[start:]) + "\n"
         try:
-            p = subprocess.run(cmd, input=data, stdout=subprocess.PIPE, stderr=subprocess.PIPE, text=True,
+            p = subprocess.run(cmd, input=data, stdout=subprocess.PIPE, stderr=subprocess.PIPE, text=True, errors="replace",
                                env=env, timeout=timeout)
             got = p.stdout.split("\n")
             if got and got[-1] == "":
